@@ -3,7 +3,7 @@
 // the observed arguments 2/4/5 of vnode calls and the `_` entry of slot objects).
 const { multisets, sequences } = require('../lib/spaces');
 const { withModule, errStr } = require('../lib/evalmod');
-const { stable } = require('../lib/canon');
+const { stable, canonValue } = require('../lib/canon');
 const E = require('../lib/espace');
 
 const F = { TEXT: 1, CLASS: 2, STYLE: 4, PROPS: 8, FULL_PROPS: 16, HYDRATE_EVENTS: 32, STABLE_FRAGMENT: 64, KEYED_FRAGMENT: 128, UNKEYED_FRAGMENT: 256, NEED_PATCH: 512, DYNAMIC_SLOTS: 1024 };
@@ -112,6 +112,22 @@ function spaces(tier) {
       },
     },
     {
+      name: 'F:repeated-names',
+      bounds: { note: 'the same non-mergeable name written twice with different value kinds (either order), optionally with one more atom; which occurrence wins is observed, not assumed', options: 'transformOn off × mergeProps on/off' },
+      *gen() {
+        const byName = {};
+        ALPHA.forEach((a, i) => { if (!a.special && !MERGEABLE.has(a.name) && a.name !== 'key' && a.name !== 'ref') (byName[a.name] = byName[a.name] || []).push(i); });
+        const others = ALPHA.map((a, i) => i).filter((i) => ['class/dyn', 'id/dyn', 'ref/dyn', 'onFoo/dyn', 'style/dyn', 'xlink:href/dyn'].includes(ALPHA[i].id));
+        for (const host of ['div', 'Comp']) for (const name of Object.keys(byName)) for (const i of byName[name]) for (const j of byName[name]) {
+          if (i === j) continue;
+          for (const mp of [true, false]) {
+            yield { sp: 'F', host, at: [ALPHA[i].id, ALPHA[j].id], ton: false, mp };
+            for (const o of others) if (ALPHA[o].name !== name) { yield { sp: 'F', host, at: [ALPHA[i].id, ALPHA[o].id, ALPHA[j].id], ton: false, mp }; yield { sp: 'F', host, at: [ALPHA[o].id, ALPHA[i].id, ALPHA[j].id], ton: false, mp }; }
+          }
+        }
+      },
+    },
+    {
       name: 'S:slot-trees',
       bounds: { depth: 2, leaves: LEAVES, note: 'nested component trees, with plain-element wrappers, for the `_` slot flag' },
       *gen() { for (const t of trees(2)) yield { sp: 'S', t }; },
@@ -151,7 +167,11 @@ function judgeFlags(c, v, viol) {
   if (positive && needsFull && !full) push('full-props', 'flag:missing-FULL_PROPS', 'spread / merged / computed-key props without the full-props bit');
   if (positive && !full) {
     const dyn = new Set();
+    const counts = {};
+    for (const a of atoms) if (!a.special) counts[a.name] = (counts[a.name] || 0) + 1;
+    for (const k of (c.__observedDynamic || [])) dyn.add(k);
     for (const a of atoms) {
+      if (!a.special && counts[a.name] > 1 && !MERGEABLE.has(a.name)) continue; // which occurrence wins is not C13's business: judged by observation only
       if (a.special === 'prop') dyn.add(a.name);
       else if (a.special === 'model') { dyn.add('onUpdate:modelValue'); if (isComponent) dyn.add('modelValue'); }
       else if (!a.special && a.dyn) dyn.add(a.name);
@@ -205,6 +225,18 @@ function judge(c, resps) {
     let v;
     try { v = out.mk(); } catch (e) { viol.push({ clause: 'create', diff: 'exception:' + e.name, msg: errStr(e) }); return; }
     if (c.sp === 'F') {
+      // which props *observably* differ between two renders (every dynamic leaf of the environment differs)
+      const env2 = E.makeEnv(1);
+      const observedDynamic = new Set();
+      withModule(r.eval_js, env2, (out2, rec2, le2) => {
+        if (le2) return;
+        let v2;
+        try { v2 = out2.mk(); } catch (e) { return; }
+        const ctx1 = { names: env.names, flags: false }, ctx2 = { names: env2.names, flags: false };
+        const p1 = v.props || {}, p2 = v2.props || {};
+        for (const k of Object.keys(p1)) if (stable(canonValue(p1[k], ctx1, [])) !== stable(canonValue(p2[k], ctx2, []))) observedDynamic.add(k);
+      });
+      c.__observedDynamic = observedDynamic;
       judgeFlags(c, v, viol);
       obs = stable([v.patchFlag === undefined ? 'none' : v.patchFlag, v.dynamicProps || null, Object.keys(v.props || {}).sort()]);
     } else {
